@@ -43,7 +43,7 @@ def c01():
 @prop("C02")
 def c02():
     if _q():
-        plans = [dict(universe=u, variant="core", depth=2, emitidx=False) for u in U] + \
+        plans = [dict(universe=u, variant="core", depth=2, emitidx=False) for u in U] + [dict(universe="U4", variant="faults", depth=3, emitidx=False)] + \
                 [dict(universe=u, variant="extras", depth=7, simulate=25, emitidx=False, fan_keep=0.1) for u in U]
         hs = tuple(range(8))
         modes = ("compiled",)
@@ -86,7 +86,7 @@ def c03():
 @prop("C17")
 def c17():
     if _q():
-        plans = [dict(universe=u, variant="extras", depth=2) for u in U] + \
+        plans = [dict(universe=u, variant="extras", depth=2) for u in U] + [dict(universe="U4", variant="extras", depth=3)] + \
                 [dict(universe=u, variant="extras", depth=7, simulate=25, fan_keep=0.1) for u in U]
         modes = ("compiled",)
     else:
@@ -105,7 +105,7 @@ def c17():
 @prop("C18")
 def c18():
     if _q():
-        plans = [dict(universe="U1", variant="faults", depth=2, emitidx=False)] + \
+        plans = [dict(universe="U1", variant="faults", depth=2, emitidx=False), dict(universe="U4", variant="faults", depth=3, emitidx=False)] + \
                 [dict(universe=u, variant="faults", depth=5, simulate=12, emitidx=False, fan_keep=0.15) for u in U]
         modes = ("compiled",)
     else:
@@ -172,7 +172,7 @@ def c12():
 @prop("C13")
 def c13():
     if _q():
-        plans = [dict(universe=u, variant="xfer", depth=2, emitidx=False) for u in U] + \
+        plans = [dict(universe=u, variant="xfer", depth=2, emitidx=False) for u in U] + [dict(universe="U4", variant="xfer", depth=4, emitidx=False)] + \
                 [dict(universe=u, variant="xfer", depth=6, simulate=25, emitidx=False, fan_keep=0.15) for u in U]
         modes, hs = ("compiled",), (0, 1)
     else:
@@ -274,7 +274,7 @@ def c05():
                   "builtin parameters, call arguments and keyword arguments, computed keys, expressions over a bare container reference) _get_dependencies() must be a "
                   "set projecting exactly onto the specification's Locs; TLC checks on the model that a location whose change alters the value lies in Locs "
                   "(invariant Sensitive). non-trivial = edge whose target expression has an operator node",
-                  _expr_plans(q), tags=["C05"], modes=("compiled",) if q else ("compiled", "pure"), hashseeds=(0,))
+                  _expr_plans(q)[:2] if q else _expr_plans(q), tags=["C05"], keys=("plain", "negidx"), modes=("compiled",) if q else ("compiled", "pure"), hashseeds=(0,))
 
 
 @prop("C06")
